@@ -653,7 +653,8 @@ static unsigned parse_hex4(const unsigned char * const input)
         }
         else /* invalid */
         {
-            return 0;
+            /* not a code unit: larger than 0x10FFFF, so the caller's range checks reject it */
+            return 0xFFFFFFFFu;
         }
 
         if (i < 3)
